@@ -249,6 +249,8 @@ def colored_render_to_stream(
                     stream.write(str(color))
 
             elif isinstance(sdoc, SAnnotationPop):
+                if not isinstance(sdoc.value, Token):
+                    continue
                 try:
                     colorstack.pop()
                 except IndexError:
